@@ -306,20 +306,18 @@ class BaseEvent(BaseModel, Generic[T_EventResultType]):
                             if not bus or not bus.event_queue:
                                 continue
 
-                            # Process one event from this bus if available
-                            try:
-                                if bus.event_queue.qsize() > 0:
-                                    event = bus.event_queue.get_nowait()
-                                    try:
-                                        await bus.process_event(event)
-                                    finally:
-                                        bus.event_queue.task_done()
-                                    processed_any = True
-                                    # Check if the event we're waiting for is now complete
-                                    if self.event_completed_signal.is_set():
-                                        break
-                            except asyncio.QueueEmpty:
-                                pass
+                            # Process the awaited event (or one of its descendants) if it is queued on this bus.
+                            # It jumps the queue: unrelated events that were queued earlier keep waiting for the run loop
+                            event = self._event_pop_self_or_descendant_from(bus)
+                            if event is not None:
+                                try:
+                                    await bus.process_event(event)
+                                finally:
+                                    bus.event_queue.task_done()
+                                processed_any = True
+                                # Check if the event we're waiting for is now complete
+                                if self.event_completed_signal.is_set():
+                                    break
 
                         # Break out of the loop if event completed after processing
                         if self.event_completed_signal.is_set():
@@ -353,6 +351,22 @@ class BaseEvent(BaseModel, Generic[T_EventResultType]):
             return self
 
         return wait_for_handlers_to_complete_then_return_event().__await__()
+
+    def _event_pop_self_or_descendant_from(self, bus: 'EventBus') -> 'BaseEvent[Any] | None':
+        """Remove and return the first event queued on the bus that is this event or one of its descendants"""
+        if not bus.event_queue or bus.event_queue.qsize() == 0:
+            return None
+        family: dict[str, BaseEvent[Any]] = {self.event_id: self}
+        stack: list[BaseEvent[Any]] = [self]
+        while stack:
+            for child in stack.pop().event_children:
+                if child.event_id not in family:
+                    family[child.event_id] = child
+                    stack.append(child)
+        for queued_event in bus.event_queue.queued_items():
+            if queued_event.event_id in family and bus.event_queue.remove_item(queued_event):
+                return queued_event
+        return None
 
     @model_validator(mode='before')
     @classmethod
